@@ -136,4 +136,12 @@ PROPS = {
         statement="CRC-32 linearity, burst and field detection; scan under body faults; two proved negatives",
         partial="proved: checksum = bit-serial CRC-32; linearity; every <=32-bit burst inside the covered bytes and every change confined to the checksum field is detected; ReadRecord re-verifies; bad magic is an error. Proved negative: the 4-byte straddle burst 61d8|f4ee is undetected for every span (known finding). Header faults (magic/length/FREE headers) are covered by fault enumeration + model correspondence only; the forged-span construction shows they cannot be a theorem without a header checksum (known finding)",
     ),
+    "C20": dict(
+        modules=["Syzgy.Props.C20"], ties=["Numeric"], tie_namespaces=["Dump"],
+        runs={"quick": [["dump-C20", "--scenarios", "250"]], "thorough": [["dump-C20", "--scenarios", "4000"]]},
+        trusted=NUMERIC_TRUST + ["strconv.FormatFloat(v,'g',-1,64) / encoding/json number parsing round-trip every float64 (parse ∘ fmt = id)",
+                                 "encoding/json preserves JSON equality of metadata (Unmarshal ∘ Marshal, SetEscapeHTML(false), RawMessage)"],
+        statement="round trip given parse ∘ fmt = id on stored components; %f survives b <= 16 only",
+        partial="the record-level round-trip theorem has parse∘fmt=id and quantizer idempotence (C12) as hypotheses; that the export text is valid JSON for every JSON metadata value and that the streaming importer reads it back is checked on the implementation only",
+    ),
 }
